@@ -77,13 +77,43 @@ theorem phiZ_nat (x a : ℕ) : phiZ (x : ℤ) (a : ℤ) = (phi x a : ℤ) := by
     subst this; rw [PhiFacts.phi_zero_right]
   · simp
 
-/-- **`phi_OpenMP(x, a)` at `a ≤ π(√x)` is the Legendre sum, WITHOUT any hypothesis on `pi_noprint`** -/
+/-- only the caches of the loop indices matter -/
+theorem phiOpenMP_sched_congr (P : PhiTop) (order : List ℕ) (sched sched' : ℕ → PhiCacheL1 × ℕ) (x a : ℤ)
+    (h : ∀ i ∈ order, sched i = sched' i) : phiOpenMP P order sched x a = phiOpenMP P order sched' x a := by
+  unfold phiOpenMP
+  cases phiGuards P x a <;> try rfl
+  simp only
+  congr 2
+  apply List.map_congr_left
+  intro i hi
+  rw [h i hi]
+
+/-- **`phi_OpenMP(x, a)` at `a ≤ π(√x)` is the Legendre sum, WITHOUT any hypothesis on `pi_noprint`**; the cache
+    hypothesis is asked only for the loop indices `9..a` -/
 theorem phiOpenMP_call (P : PhiTop) (x a : ℕ) (hP : CallOK P x) (ha : a ≤ π (Nat.sqrt x))
     (order : List ℕ) (horder : order.Perm (List.range' 9 (a - 8)))
-    (sched : ℕ → PhiCacheL1 × ℕ) (hsched : ∀ i, CacheOK (sched i)) :
+    (sched : ℕ → PhiCacheL1 × ℕ) (hsched : ∀ i, 9 ≤ i → i ≤ a → CacheOK (sched i)) :
     phiOpenMP P order sched (x : ℤ) (a : ℤ) = (phi x a : ℤ) := by
-  rw [← phiOpenMP_piFn_irrelevant P (fun y => π y) order sched _ _ (hP.no_phiPix ha), ← phiZ_nat]
-  exact phiOpenMP_correct _ (x : ℤ) (a : ℤ) (by simpa using hP.topOK ha) order (by simpa using horder) sched hsched
+  set sched' : ℕ → PhiCacheL1 × ℕ := fun i => if 9 ≤ i ∧ i ≤ a then sched i else (⟨0, 0, fun _ _ => 0⟩, 0) with hs'
+  have hcongr : ∀ i ∈ order, sched i = sched' i := by
+    intro i hi
+    have := (horder.mem_iff).1 hi
+    rw [List.mem_range'_1] at this
+    rw [hs']
+    simp only
+    rw [if_pos ⟨by omega, by omega⟩]
+  have hok : ∀ i, CacheOK (sched' i) := by
+    intro i
+    rw [hs']
+    simp only
+    split
+    · rename_i h; exact hsched i h.1 h.2
+    · exact ⟨fun _ _ _ h1 h2 => by
+        have h2' : _ ≤ 0 := h2
+        omega, le_rfl⟩
+  rw [phiOpenMP_sched_congr P order sched sched' _ _ hcongr,
+    ← phiOpenMP_piFn_irrelevant P (fun y => π y) order sched' _ _ (hP.no_phiPix ha), ← phiZ_nat]
+  exact phiOpenMP_correct _ (x : ℤ) (a : ℤ) (by simpa using hP.topOK ha) order (by simpa using horder) sched' hok
 
 /-! ### the cache hypothesis -/
 
@@ -127,8 +157,9 @@ structure CallRunOK (P : PhiTop) (order : List ℕ) (sched : ℕ → PhiCacheL1 
   top : CallOK P x
   /-- the OpenMP reduction adds every loop index `9..a` exactly once, in some order -/
   order : order.Perm (List.range' 9 (a - 8))
-  /-- the caches answer the spec value where consulted (`CacheValOK`) and are in a legal state -/
-  cache : ∀ i, CacheOK (sched i)
+  /-- the cache object of the thread that evaluates loop index `i` answers the spec value where consulted
+      (`CacheValOK`) and is in a legal state (`max_a_cached_ ≤ max_a_`) -/
+  cache : ∀ i, 9 ≤ i → i ≤ a → CacheOK (sched i)
 
 theorem phiReal_eq (P : ℕ → ℕ → PhiTop) (order : ℕ → ℕ → List ℕ) (sched : ℕ → ℕ → ℕ → PhiCacheL1 × ℕ) (x a : ℕ)
     (h : CallRunOK (P x a) (order x a) (sched x a) x a) (ha : a ≤ π (Nat.sqrt x)) :
